@@ -50,6 +50,11 @@ type Footprint struct {
 	// This field is not serialized in the index, since it is always false
 	// for system fonts.
 	isUserProvided bool
+
+	// userFace is the face of a font added manually to a FontMap:
+	// two of them may have been given the same Location, which
+	// does not identify them.
+	userFace *font.Face
 }
 
 // truncateFamily cuts a family name to the length the index can store (see serializeString),
